@@ -7,11 +7,12 @@ import Driver.Pbc
 import Driver.Restr
 import Driver.Manager
 import Driver.SysGro
+import Driver.Itp
 /-
   gmdriver — reads request lines on stdin, writes one response line per request on stdout.
 -/
 
-def handlers : List Handler := [DGeom.handle, DEMap.handle, DMove.handle, DChi2.handle, DPbc.handle, DRestr.handle, DManager.handle, DSysGro.handle]
+def handlers : List Handler := [DGeom.handle, DEMap.handle, DMove.handle, DChi2.handle, DPbc.handle, DRestr.handle, DManager.handle, DSysGro.handle, DItp.handle]
 
 def dispatch (op : String) : Option (Rd String) :=
   handlers.findSome? (fun h => h op)
